@@ -392,6 +392,16 @@ func (m *Mux) DropConn(ctx context.Context, cc *grpc.ClientConn) bool {
 }
 
 // resolver implements protodesc.Resolver.
+// reflectionError reports the error a reflection server answered a request
+// with: what was asked for is not there, and carrying on as if nothing had
+// been listed would quietly leave the backend's services unrouted.
+func reflectionError(r *rpb.ServerReflectionResponse) error {
+	if er := r.GetErrorResponse(); er != nil {
+		return status.Error(codes.Code(er.GetErrorCode()), "reflection: "+er.GetErrorMessage())
+	}
+	return nil
+}
+
 type resolver struct {
 	stream rpb.ServerReflection_ServerReflectionInfoClient
 	files  protoregistry.Files
@@ -427,6 +437,9 @@ func (r *resolver) FindFileByPath(path string) (protoreflect.FileDescriptor, err
 
 	fdr, err := r.stream.Recv()
 	if err != nil {
+		return nil, err
+	}
+	if err := reflectionError(fdr); err != nil {
 		return nil, err
 	}
 	fdbs := fdr.GetFileDescriptorResponse().GetFileDescriptorProto()
@@ -553,7 +566,9 @@ func (s *state) addConnHandler(
 	if err != nil {
 		return err
 	}
-	// TODO: check r.GetErrorResponse()?
+	if err := reflectionError(r); err != nil {
+		return err
+	}
 
 	// File descriptors hash for detecting updates. TODO: sort fds?
 	h := sha256.New()
@@ -575,6 +590,9 @@ func (s *state) addConnHandler(
 
 		fdr, err := stream.Recv()
 		if err != nil {
+			return err
+		}
+		if err := reflectionError(fdr); err != nil {
 			return err
 		}
 
